@@ -60,7 +60,7 @@ def good_sargs(rng):
                                           '[48 ;2;1;2;3', '[ 31 ; 1', '[\t4', '[01', '[4 ;58;5; 9', '[[1', '[[[38;5;1', '[[']))
     if k == 5: return ('str', rng.choice(['rgb(1,2,3)', 'bg_rgb(0x102030)', 'ul_color256(9)', 'dul_rgb(300, 0, 5)',
                                           'fg_colour256(0x10)', 'rgb([1, 2, 3])', 'color256(214)']))
-    if k == 6: return ('obj', rng.choice(['1', '31', '34', '1;31', '38;5;214', '38;5;300', '22', '4', '+1', '2;', '10']))
+    if k == 6: return ('obj', rng.choice(['1', '31', '34', '1;31', '38;5;214', '38;5;300', '22', '4', '+1', '2;', '10', '\u00b2', '1;\u2460']))
     if k == 13: return rng.choice([('list', [('int', 38), ('str', 'bold')]), ('str', '38;bold'), ('list', [('int', 38), ('int', 5), ('member', 'RED')]),
                                    ('list', [('int', 58), ('int', 5), ('str', 'italic'), ('int', 4)]), ('str', '38;5;300;red'),
                                    ('obj', ['1', '3H']), ('obj', [4, '2J']), ('obj', (1, 31)), ('obj', ['38', '5', '1']), ('obj', 31),
@@ -275,6 +275,14 @@ class Runner:
                     viol.append(('C13', 'ansistr_payload', 'payload %r but rendering %r' % (str.__str__(t), t._s.to_str())))
                     # str(a) is a rendering too: it no longer shows the text and styles the object reports
                     viol.append(('C01', 'str_eq', 'str() of an AnsiStr is %r, its to_str() %r' % (str.__str__(t), t._s.to_str())))
+                    if '\x1b' not in t.base_str and T.strip_sgr(str.__str__(t)) != t.base_str:
+                        viol.append(('C10', 'len_eq', 'an AnsiStr answers queries for the text %r while str() shows %r' % (t.base_str, T.strip_sgr(str.__str__(t)))))
+                    try:
+                        back = self.A(str.__str__(t))
+                        if back._s != t.base_str or O.effs(back) != O.effs(t._s):
+                            viol.append(('C03', 'roundtrip_display', 'AnsiString(str(a)) of an AnsiStr has other text/styles than a reports: str() %r, reported rendering %r' % (str.__str__(t), t._s.to_str())))
+                    except Exception:   # noqa
+                        pass
                     if t.is_formatting_valid() and '\x1b' not in t.base_str and T.strip_sgr(str.__str__(t)) != t.base_str:
                         viol.append(('C15', 'render_strip', 'an AnsiStr reports valid formatting, but stripping the escape sequences of str() %r does not give base_str %r' % (str.__str__(t), t.base_str)))
                     self.tainted = True
@@ -342,13 +350,21 @@ class Runner:
                 return [('C09', 'error_atomic', 'receiver broken by a failed call: %r' % (e,))]
         return []
 
+    @staticmethod
+    def ttable(v):
+        return (v._s, {k: ([str(q) for q in p_.add], [str(q) for q in p_.rem]) for k, p_ in sorted(v._fmts.items())})
+
     def own_lists_distinct(self, x, what):
         """the start and stop lists of one value are separate objects (two markers sharing a list: a later
         edit of one shows up at the other)"""
         ls = [l for p in x._fmts.values() for l in (p.add, p.rem)]
         if len(set(id(l) for l in ls)) != len(ls) or len(set(id(p) for p in x._fmts.values())) != len(x._fmts):
-            return [('C08', 'frame', 'after %s two markers of one value share a list or a point object' % what),
-                    ('C09', 'self_check', 'after %s two markers of one value share a list or a point object' % what)]
+            out = [('C08', 'frame', 'after %s two markers of one value share a list or a point object' % what),
+                   ('C09', 'self_check', 'after %s two markers of one value share a list or a point object' % what)]
+            own = self.OP_PROP.get(getattr(self, 'cur_op', None) or '') or self.OP_PROP.get(what)
+            if own:
+                out.append((own, 'result_unobservable', 'after %s two markers of the result share a list: an edit of one end shows at the other' % what))
+            return out
         return []
 
     def health(self, x, what):
@@ -802,7 +818,9 @@ class Runner:
         ids = P.InIds()
         inp = self._inp = P.line('iadd', P.e_astr(a, ids), P.e_astr(b_astr, ids))
         pre_a, pre_b = O.Snap(a), O.Snap(b_astr)
+        ref = None
         if inplace:
+            ref = self.call(lambda: self.ttable(a.copy() + (kv[1].copy() if (kv[0] == 'A' and kv[1] is a) else kv[1])))
             def run():
                 nonlocal a
                 t = a
@@ -815,6 +833,8 @@ class Runner:
             out, fv = self.framed([], lambda: self.call(lambda: a + kv[1]))
         self.count('concat', out)
         viol = self.c09(out, 'concat', kv[0]) + fv
+        if out[0] == 'ok' and ref is not None and ref[0] == 'ok' and self.ttable(out[1]) != ref[1]:
+            viol.append(('C08', 'inplace_eq', '+= leaves %r, + on copies gives %r' % (self.ttable(out[1]), ref[1])))
         if out[0] == 'ok':
             r = out[1]
             viol += self.oracle_concat(pre_a, pre_b, r, kv)
@@ -981,6 +1001,8 @@ class Runner:
         out, fv = self.framed([], lambda: self.call(lambda: x.to_str(spec, o, rs, re_)))
         self.count('tostr', out)
         viol = self.c09(out, 'tostr', repr(spec), allowed=(ValueError,)) + fv
+        if out[0] == 'err' and not spec:
+            viol.append(('C01', 'render_total', 'to_str(%r,%r,%r,%r) raises %r' % (spec, o, rs, re_, out[1])))
         if not pre.same_as(O.Snap(x)):
             viol.append(('C12', 'format_pure', repr(spec)))
         if out[0] == 'ok' and not spec:
@@ -1345,7 +1367,10 @@ class Runner:
         pre = O.Snap(x)
         pre_new = O.Snap(self.as_astr(new)) if new[0] != 's' else None
         writes = [x] if inplace else []
+        ref = self.call(lambda: self.ttable(x.copy().replace(old, new[1].copy() if (new[0] == 'A' and new[1] is x) else new[1], count))) if inplace else None
         out, fv = self.framed(writes, lambda: self.call(lambda: x.replace(old, new[1], count, inplace)))
+        if inplace and out[0] == 'ok' and ref[0] == 'ok' and self.ttable(out[1]) != ref[1]:
+            fv.append(('C08', 'inplace_eq', 'replace(%r, …, inplace=True) leaves %r, the non-in-place call on a copy gives %r' % (old, self.ttable(out[1]), ref[1])))
         self.count('replace', out)
         viol = self.c09(out, 'replace', repr((old, new[0], count))) + fv
         if out[0] == 'ok':
@@ -1477,6 +1502,9 @@ class Runner:
         checks = [
             ('len', lambda: len(x), lambda: len(t)),
             ('in', lambda: sub in x, lambda: sub in t),
+            ('in_ansistr', lambda: self.S(sub, 'bold') in x, lambda: sub in t),
+            ('in_ansistring', lambda: self.A(sub, 'red') in x, lambda: sub in t),
+            ('in_on_ansistr', lambda: self.S(sub, 'bold') in self.S(x), lambda: sub in t),
             ('count', lambda: x.count(sub, a, b), lambda: t.count(sub, a, b)),
             ('find', lambda: x.find(sub, a, b), lambda: t.find(sub, a, b)),
             ('rfind', lambda: x.rfind(sub, a, b), lambda: t.rfind(sub, a, b)),
@@ -1488,7 +1516,7 @@ class Runner:
              ['isalnum', 'isalpha', 'isascii', 'isdecimal', 'isdigit', 'isidentifier', 'islower', 'isnumeric',
               'isprintable', 'isspace', 'istitle', 'isupper']]
         for nm, f, g in checks:
-            if nm == 'in' and '\x1b' in sub:
+            if nm.startswith('in') and '\x1b' in sub:
                 continue
             r1 = self.call(f)
             try:
@@ -1513,7 +1541,7 @@ class Runner:
             t = x._s
         regex = rng.random() < 0.35
         if regex:
-            pat = rng.choice(['a+', 'a*', '[ab]', 'b?', '(a)(b)?', '\\s', '.', 'a|b', '^', '$', 'x*', '(?:ab)+', '^a', '^.', '.$', 'b$', '^\\w+', '\\w$', '^[ab]|c$'])
+            pat = rng.choice(['a+', 'a*', '[ab]', 'b?', '(a)(b)?', '\\s', '.', 'a|b', '^', '$', 'x*', '(?:ab)+', '^a', '^.', '.$', 'b$', '^\\w+', '\\w$', '^[ab]|c$', 'x?|a+', '^|a', 'a*?', '(?=a)|a', '|b'])
         else:
             pat = rng.choice([self.pattern(x), self.pattern(x), t, t[:3], t[-3:], '.', 'a.', '(', 'a+', '[', '\\', 'A', 'B', '*', '++', '(a)', '[1+1]', '|', 'a|b', ' | ', '^', '$', '{', '}', 'a{1}', '?'])
         mc = rng.random() < 0.4
@@ -1794,7 +1822,9 @@ class Runner:
                 viol += same(r_s[1], r_a[1], '%s%r' % (name, args))
             if len(viol) > nv and name in self.TWIN_OWNER:
                 # the operation's own property speaks about both classes: the immutable one must do the same
-                viol.append((self.TWIN_OWNER[name], 'ansistr_twin', 'AnsiStr.%s%r differs from AnsiString.%s: %s' % (name, args, name, viol[-1][2])))
+                detail = viol[-1][2]
+                for own in [self.TWIN_OWNER[name]] + {'unformat_matching': ['C07'], 'format_matching': ['C06'], 'apply_formatting_for_match': ['C06']}.get(name, []):
+                    viol.append((own, 'ansistr_twin', 'AnsiStr.%s%r differs from AnsiString.%s: %s' % (name, args, name, detail)))
             v2 = same(a, x, 'receiver after ' + name)
             if v2:
                 viol.append(('C13', 'ansistr_immutable', name))
@@ -1831,6 +1861,7 @@ class Runner:
         """run one generated operation; a harness failure while observing a value is a finding
         (a reachable value that can no longer be observed), never a crash"""
         self._inp = None
+        self.cur_op = nm
         try:
             getattr(self, 'op_' + nm)()
         except Timeout:
